@@ -4,6 +4,7 @@ import SJ.Props.TypedFaultEq
 import SJ.Props.StreamTyped
 import SJ.Props.C13Raw
 import SJ.Props.C13Kind
+import SJ.Props.C13Stream
 #print axioms SJ.Props.C13.c13_read
 #print axioms SJ.Props.C13.c13_read_error_class
 #print axioms SJ.Props.Typed.c13_typed_fault
@@ -31,3 +32,5 @@ import SJ.Props.C13Kind
 #print axioms SJ.Props.C13.c13_kind_only_from_reader
 #print axioms SJ.Props.C13.c13_typed_kind_preserved
 #print axioms SJ.Props.C13.c13_item_kind
+#print axioms SJ.Props.C13Stream.c13_stream_io_once
+#print axioms SJ.Props.C13Stream.c13_stream_error_once
